@@ -18,7 +18,10 @@
 (*            names the listing, in callback order                         *)
 (*          size, S, M, hit (cached subrange starts of the object before   *)
 (*          the read), attrhit, breqs (<<off, len>> of the GetRange calls  *)
-(*          that reached the underlying bucket): model conformance only.   *)
+(*          that reached the underlying bucket), snap (hit/attrhit/breqs   *)
+(*          are meaningful: sequential read through the test cache; FALSE  *)
+(*          for concurrent reads and for the real in-memory cache          *)
+(*          backend): model conformance only.                              *)
 (*          The first line of a case also carries in = the world,          *)
 (*          configuration and history (for replay).                        *)
 (* Every op line is judged on its own with the property-level operator     *)
@@ -46,7 +49,7 @@ Judge(e) == IF e.ev # "op" THEN {}
 (* Model conformance (never a verdict): the sub-requests the algorithm-level model plans for     *)
 (* this GetRange, given the cached subranges before the call, against the GetRange calls that    *)
 (* reached the bucket.                                                                            *)
-Drift(e) == /\ e.ev = "op" /\ e.op = "getrange" /\ e.size >= 0 /\ e.got.kind \notin {"panic", "hang"}
+Drift(e) == /\ e.ev = "op" /\ e.op = "getrange" /\ e.size >= 0 /\ e.snap /\ e.got.kind \notin {"panic", "hang"}
             /\ LET pred == IF e.off < 0 \/ e.len <= 0 THEN {<<e.off, e.len>>}
                            ELSE PlanReqs(Plan(e.size, e.S, e.M, e.off, e.len, Range(e.hit)), e.off, e.len)
                    obs == { <<e.breqs[i][1], e.breqs[i][2]>> : i \in DOMAIN e.breqs }
